@@ -89,6 +89,8 @@ fn check_accessors(v: &mut V, tx: &Transaction, r: &RTx, b: &[u8]) {
         v.eq("get_unlocking_script_size", i.get_unlocking_script_size(), ri.script.len() as u64);
         v.eq("get_outpoint_bytes(Some(true))", i.get_outpoint_bytes(Some(true)), ri.outpoint_wire());
         v.eq("get_outpoint_hex(Some(true))", i.get_outpoint_hex(Some(true)), hex::encode(ri.outpoint_wire()));
+        // the constructor that takes the 36 outpoint bytes must rebuild the same outpoint
+        v.eq("TxIn::from_outpoint_bytes", TxIn::from_outpoint_bytes(&ri.outpoint_wire()).ok().map(|x| (x.get_prev_tx_id(Some(true)), x.get_vout())), Some((ri.txid_wire.to_vec(), ri.vout)));
         v.eq("TxIn::is_coinbase", i.is_coinbase(), ri.is_coinbase_outpoint());
         v.eq("TxIn::to_bytes", i.to_bytes().ok(), Some(ri.encode()));
     }
@@ -752,11 +754,36 @@ pub fn spaces(tier: Tier) -> Vec<Space> {
         }) {
             Ok(Ok(got)) => {
                 if got != want {
-                    acc.violate(format!("C01/write_varint/kind=wrong-encoding/width={}", want.len()), case.idx, case.json(input), format!("library={} compact-size={}", hx(&got), hx(&want)));
+                    acc.violate(format!("C01/write_varint/kind=wrong-encoding/width={}", want.len()), case.idx, case.json(input.clone()), format!("library={} compact-size={}", hx(&got), hx(&want)));
                 }
             }
-            Ok(Err(e)) => acc.violate("C01/write_varint/kind=error", case.idx, case.json(input), e.to_string()),
-            Err(p) => acc.violate(format!("C01/write_varint/kind=panic@{}", panic_site(&p)), case.idx, case.json(input), p),
+            Ok(Err(e)) => acc.violate("C01/write_varint/kind=error", case.idx, case.json(input.clone()), e.to_string()),
+            Err(p) => acc.violate(format!("C01/write_varint/kind=panic@{}", panic_site(&p)), case.idx, case.json(input.clone()), p),
+        }
+        // the other public implementations of the two traits: the Cursor<Vec<u8>> writer, and the three readers
+        // (Cursor<Vec<u8>>, Cursor<&[u8]>, Vec<u8>) on the canonical encoding
+        acc.transitions += 4;
+        let twins = guard(|| {
+            use bsv::VarIntReader;
+            let mut cw = std::io::Cursor::new(Vec::<u8>::new());
+            let w = cw.write_varint(n).map(|_| cw.into_inner()).map_err(|e| e.to_string());
+            let r1 = std::io::Cursor::new(want.clone()).read_varint().map_err(|e| e.to_string());
+            let r2 = std::io::Cursor::new(&want[..]).read_varint().map_err(|e| e.to_string());
+            let r3 = want.clone().read_varint().map_err(|e| e.to_string());
+            (w, r1, r2, r3)
+        });
+        match twins {
+            Ok((w, r1, r2, r3)) => {
+                if w.as_ref().ok() != Some(&want) {
+                    acc.violate(format!("C01/write_varint(Cursor)/kind=wrong-encoding/width={}", want.len()), case.idx, case.json(input.clone()), format!("library={:?} compact-size={}", w.map(|x| hx(&x)), hx(&want)));
+                }
+                for (name, r) in [("Cursor<Vec<u8>>", r1), ("Cursor<&[u8]>", r2), ("Vec<u8>", r3)] {
+                    if r.as_ref().ok() != Some(&n) {
+                        acc.violate(format!("C01/read_varint({})/kind=wrong-value/width={}", name, want.len()), case.idx, case.json(input.clone()), format!("read {:?} from {}", r, hx(&want)));
+                    }
+                }
+            }
+            Err(p) => acc.violate(format!("C01/varint-trait-impls/kind=panic@{}", panic_site(&p)), case.idx, case.json(input), p),
         }
     }));
     // S6: TxIn::from_hex / TxOut::from_hex on fragments (valid and with trailing bytes)
